@@ -162,9 +162,9 @@ Definition bclass (m : meth) (a : list arg) : mclass :=
     | V_Chmod | V_Chown | V_Chtimes | V_Create | V_CreateTemp | V_Lchown | V_Link
     | V_Mkdir | V_MkdirAll | V_MkdirTemp | V_Remove | V_RemoveAll | V_Rename
     | V_Symlink | V_Truncate | V_WriteFile => CWrite
-    | V_OpenFile => match a with
-                    | [_; AI fl; _] => if Z.eqb fl O_RDONLY then CRead else CWrite
-                    | _ => CWrite
+    | V_OpenFile => match nth_error a 1 with
+                    | Some (AI fl) => if Z.eqb fl O_RDONLY then CRead else CWrite
+                    | _ => CRead   (* no integer flag: not a call the typed Go interface admits *)
                     end
     | V_Chdir | V_SetUMask | V_SetUser | V_SetUserByName | V_SetIdm => CSession
     | V_Features | V_HasFeature | V_SetFeatures | V_Idm | V_Name | V_Type | V_OSType
@@ -180,7 +180,8 @@ Definition bclass (m : meth) (a : list arg) : mclass :=
   end.
 
 (* class of a method over all its arguments (OpenFile counts as a write method) *)
-Definition mclass_of (m : meth) : mclass := bclass m [].
+Definition mclass_of (m : meth) : mclass :=
+  match m with MV V_OpenFile => CWrite | _ => bclass m [] end.
 
 (* ------------------------------------------------------------------ *)
 (* kinds of wrapper methods *)
@@ -216,8 +217,10 @@ Inductive kind :=
                                          (* if flag <> guard then refuse e else base.OpenFile(name, fflag, fperm), wrapped *)
 | KSelfOpenFile (flag perm : Z)          (* return vfs.OpenFile(name, flag, perm) - the wrapper's own OpenFile *)
 | KSelfWrite                             (* return f.Write([]byte(s)) - the wrapper's own Write *)
-| KConsult (fn : fnvfs) (flds : list (fpfield * nat)) (k : kind)
-                                         (* werr := failFunc(fn, params); if werr != nil return werr; then k *)
+| KConsult (fn : fnvfs) (flag : option nat) (k : kind)
+                                         (* e := failFunc(fn, &FailParam{..., Flag: <argument number flag>}); if e != nil
+                                            return e; then k.  The other FailParam fields only feed error messages; they are
+                                            listed, per method, in Gen_failfs.failfs_fields. *)
 | KComposite (c : comp)                  (* avfs.C(vfs, args): generic composite over the wrapper's primitives *)
 | KUnrecognised.                         (* the translator did not recognise the body: fails every table theorem *)
 
@@ -233,25 +236,16 @@ Inductive rokind :=
 Definition kind_of (T : table) (m : meth) : kind :=
   match alookup meth_eqb m T with Some k => k | None => KUnrecognised end.
 
-(* the failure function: sees the ids consulted so far, the id and the FailParam fields *)
-Definition fparams := list (fpfield * arg).
-Definition ffun := list fnvfs -> fnvfs -> fparams -> option werr.
+(* the failure function: sees the ids consulted so far (so "the k-th invocation of F" is
+   expressible), the id, and FailParam.Flag *)
+Definition ffun := list fnvfs -> fnvfs -> option Z -> option werr.
 
 Definition ok_func : ffun := fun _ _ _ => None.
 
-Fixpoint mk_params (flds : list (fpfield * nat)) (a : list arg) : fparams :=
-  match flds with
-  | [] => []
-  | (f, i) :: r => match nth_error a i with
-                   | Some x => (f, x) :: mk_params r a
-                   | None => mk_params r a
-                   end
-  end.
-
-Definition fp_flag (p : fparams) : option Z :=
-  match alookup (fun a b => if fpfield_eq_dec a b then true else false) FpFlag p with
-  | Some (AI z) => Some z
-  | _ => None
+Definition mk_flag (flag : option nat) (a : list arg) : option Z :=
+  match flag with
+  | Some i => match nth_error a i with Some (AI z) => Some z | _ => None end
+  | None => None
   end.
 
 (* ------------------------------------------------------------------ *)
@@ -317,8 +311,8 @@ Section Semantics.
             else (mkRes (ans_err (err_of_src e)) [], w)
         | _ => stuck 3 w
         end
-    | KConsult fn flds k' =>
-        match ff (w_hist w) fn (mk_params flds a) with
+    | KConsult fn flag k' =>
+        match ff (w_hist w) fn (mk_flag flag a) with
         | Some e => (mkRes (ans_err e) [(fn, true)], push_hist fn w)
         | None => add_cons (fn, false) (run0 cb k' (push_hist fn w) o m a bind)
         end
@@ -351,15 +345,19 @@ Section Semantics.
     end.
 
   (* level 2: run a composite over the level-1 primitives *)
-  Fixpoint run_prog (p : prog) (w : world) (self bind : nat) (acc : list (fnvfs * bool)) : wres * world :=
+  Fixpoint run_prog_with (pstep : world -> nat -> meth -> list arg -> nat -> wres * world)
+           (p : prog) (w : world) (self bind : nat) (acc : list (fnvfs * bool)) : wres * world :=
     match p with
     | PRet a => (mkRes a acc, w)
     | PCall osel m a result k =>
         let id := match osel with None => self | Some i => i end in
         let b := if result then bind else fresh (w_objs w) in
-        let '(r, w') := call_obj no_comp w id m a b in
-        run_prog (k (r_ans r)) w' self bind (acc ++ r_cons r)
+        let '(r, w') := pstep w id m a b in
+        run_prog_with pstep (k (r_ans r)) w' self bind (acc ++ r_cons r)
     end.
+
+  Definition run_prog : prog -> world -> nat -> nat -> list (fnvfs * bool) -> wres * world :=
+    run_prog_with (call_obj no_comp).
 
   Record ccall := mkCall { c_obj : nat; c_meth : meth; c_args : list arg; c_bind : nat }.
 
